@@ -42,6 +42,28 @@ __CPROVER_ensures(__CPROVER_return_value == VSTR_NPOS || (pos <= __CPROVER_retur
 __CPROVER_ensures((g_ck >= pos && g_ck < s->size && (__CPROVER_return_value == VSTR_NPOS || g_ck < __CPROVER_return_value)) ==> s->data[g_ck] != c)
 __CPROVER_assigns();
 
+/* phosg::split(text, c, max_splits) on a slice (contract of split, property C08: the pieces tile the text, separated by c, none of the
+ * first max_splits pieces contains c): only the first two pieces and "one / two / more pieces" are modelled */
+typedef struct { size_t count; C17_slice p0, p1; } C17_parts;
+static inline C17_parts C17_split(C17_slice sl, char c, size_t max_splits)
+{
+  C17_parts r; size_t end = sl.off + sl.len;
+  r.p1 = C17_empty();
+  size_t a = C17_find(sl.s, c, sl.off);
+  if (a == VSTR_NPOS || a >= end) { r.count = 1; r.p0 = sl; return r; }
+  r.p0.s = sl.s; r.p0.off = sl.off; r.p0.len = a - sl.off;
+  r.p1.s = sl.s; r.p1.off = a + 1;
+  size_t b = (max_splits == 1) ? VSTR_NPOS : C17_find(sl.s, c, a + 1);
+  if (b == VSTR_NPOS || b >= end) { r.count = 2; r.p1.len = end - (a + 1); } else { r.count = 3; r.p1.len = b - (a + 1); }
+  return r;
+}
+static inline C17_slice C17_part(const C17_parts* p, size_t k)
+{
+  __CPROVER_assert(k < p->count, "vector::operator[] beyond the number of pieces is undefined");
+  __CPROVER_assert(k < 2, "model restriction: only the first two pieces of a split are modelled");
+  return k == 0 ? p->p0 : p->p1;
+}
+
 /* ---------------------------------------------------------------------------------------- (a) append-only event log */
 typedef struct Arguments_log { int unused_; } Arguments_log;
 enum { C17_EV_NONE = 0, C17_EV_POSITIONAL = 1, C17_EV_NAMED = 2 };
